@@ -241,6 +241,30 @@ def xml_of(lang, root):
     return b"".join(out)
 
 
+def fe_spec(root):
+    """the document as the model of the XML front end takes it (elements, attributes, text items as one chunk each,
+    cut in two when long enough: Expat may deliver a text in pieces); None when it contains CDATA / embedded documents"""
+    out = []
+
+    def go(n):
+        if n.kind == "x":
+            t = n.text
+            out.append("x" + (hx(t[:len(t) // 2]) + "+" + hx(t[len(t) // 2:]) if len(t) >= 2 else hx(t)))
+            return True
+        if n.kind != "e":
+            return False
+        out.append("e" + hx(n.name))
+        for k, v in n.attrs:
+            out.append("a%s=%s" % (hx(k), hx(v)))
+        out.append("(")
+        for k in n.kids:
+            if not go(k):
+                return False
+        out.append(")")
+        return True
+    return ".".join(out) if go(root) else None
+
+
 # ----------------------------------------------------------------------------
 # generator
 # ----------------------------------------------------------------------------
